@@ -192,6 +192,15 @@ def expand(p, alphabet):
         q.lines.append("x%d = executable('x%d', files=[%s], pch=p%d)" % (i, i, f, i))
         q.values.append(Value('x%d' % i, EXE, 'x%d' % i, i))
         out.append(q)
+    if 'exeopts' in alphabet:
+        # per-target options that repeat words which (in some configurations of C06) are also given
+        # globally or through the environment: every occurrence must reach the tool
+        q = new('exeopts')
+        f = repr(src(q, i, header=False))
+        q.lines.append("q%d = executable('q%d', files=[%s], compile_options=['-DGO=1', '-DEF=1', '-DOWN%d=1'], "
+                       "link_options=['-Wl,-go', '-Wl,-ef', '-Wl,-own'])" % (i, i, f, i))
+        q.values.append(Value('q%d' % i, EXE, 'q%d' % i, i))
+        out.append(q)
     if 'vshlib' in alphabet:
         q = new('vshlib')
         f = repr(src(q, i, header=False))
@@ -247,7 +256,7 @@ def expand(p, alphabet):
     return out
 
 
-FULL = ['obj', 'exe', 'slib', 'shlib', 'vshlib', 'exepch', 'step1', 'step2', 'stepao', 'step2ao', 'stepcmd', 'copy', 'alias',
+FULL = ['obj', 'exe', 'slib', 'shlib', 'vshlib', 'exepch', 'exeopts', 'step1', 'step2', 'stepao', 'step2ao', 'stepcmd', 'copy', 'alias',
         'command', 'test', 'testarg', 'default', 'install']
 
 
